@@ -833,6 +833,10 @@ operator('unknown-transform', _sites(lambda i, c: c.startswith('@comparer(') and
 	_edit(lambda i, c: re.sub(r'![a-z0-9_]+', '!zzq', c, count=1)))
 operator('unknown-condition-operator', _sites(lambda i, c: bool(CONDITION.match(c))),
 	_edit(lambda i, c: CONDITION.sub(lambda m: m.group(1) + 'zzq' + m.group(3), c)))
+operator('condition-operator-words-run-together', _sites(lambda i, c: bool(re.search(r' if \S+ not (equals|in) ', c))),
+	_edit(lambda i, c: re.sub(r'( if \S+ )not (equals|in) ', r'\1not\2 ', c, count=1)))
+operator('condition-operator-misspelt', _sites(lambda i, c: bool(CONDITION.match(c))),
+	_edit(lambda i, c: CONDITION.sub(lambda m: m.group(1) + {'equals': 'equal', 'not equals': 'not equal', 'in': 'inn', 'not in': 'not inn'}.get(m.group(2), 'zzq') + m.group(3), c)))
 operator('deleted-operand', _sites(lambda i, c: not c.startswith('@') and ' = ' in c),
 	_edit(lambda i, c: c[:c.index(' = ') + 2]))
 operator('deleted-left-parenthesis', _sites(lambda i, c: not _is_import(c) and '(' in c),
